@@ -1,6 +1,7 @@
 """C03 — every stdlib function honours its declared signature (table-agreement clauses)."""
 import re
 import stdlibrules as sr
+from facts import op_local
 
 
 def run(chk):
@@ -13,7 +14,9 @@ def run(chk):
         "value (P-RET: Value::X constructions, From/Into<Value> conversions by source type, results of local helpers; an operand handed back unchanged is "
         "'unknown' and never reported) — are inside the kinds `Function::return_kind()` declares. R03g (declared result type): each function's `type_def` is evaluated by abstract interpretation "
         "of its MIR (P-ABS) with every argument at its declared parameter kind; the resulting kind set must contain every Value variant P-RET finds "
-        "resolve can produce (objects/arrays as one kind each). R03h (wrong-typed run-time arguments): the value of a parameter whose declared kind is "
+        "resolve can produce (objects/arrays as one kind each); in addition, for an argument that resolve (or the helper it is "
+        "handed to) matches by variant, the comparison is made per variant: the variants produced when the argument is an X (P-VAR over the matching body) "
+        "must be inside type_def evaluated with that argument typed exactly X. R03h (wrong-typed run-time arguments): the value of a parameter whose declared kind is "
         "restricted never reaches a kind-agnostic conversion (Value::to_string_lossy, coerce_to_bytes, Display) — in resolve or in a stdlib helper it is handed "
         "to — on a path without a dominating kind check (try_*/as_*/match on the variant). Undecided: element kinds of returned collections, the "
         "argument-dependent refinement in type_def, semantic correctness.")
@@ -24,6 +27,7 @@ def run(chk):
     rule_return_kinds(chk, "R03c", M)
     sr.rule_restricted_args_checked(chk, "R03h", M)
     rule_type_def_kinds(chk, "R03g", M)
+    rule_type_def_per_variant(chk, "R03g", M)
 
 
 VARIANT_BIT = {"Bytes": 1 << 1, "Integer": 1 << 2, "Float": 1 << 3, "Boolean": 1 << 4, "Object": 1 << 5, "Array": 1 << 6, "Timestamp": 1 << 7,
@@ -130,3 +134,96 @@ def rule_type_def_kinds(chk, rid, M):
                               "`%s`: resolve can produce a %s value, but type_def (evaluated with every argument at its declared kind) yields %s: the result "
                               "does not belong to the declared result type" % (ident, x.lower(), "|".join(sorted(res.kind)) or "never"), detail=d)
     chk.extra["R03g_type_defs_evaluated"] = evaluated
+
+
+def rule_type_def_per_variant(chk, rid, M):
+    """refinement of R03g: per variant of a matched argument"""
+    import fmap
+    import retkind
+    import tinfo
+    facts = chk.facts
+    R = retkind.RetKinds(facts)
+    bitname = {"BYTES": "bytes", "INTEGER": "integer", "FLOAT": "float", "BOOLEAN": "boolean", "OBJECT": "object", "ARRAY": "array",
+               "TIMESTAMP": "timestamp", "REGEX": "regex", "NULL": "null"}
+    var_of = {v: k for k, v in KIND_OF_VARIANT.items()}
+    n_args = 0
+    for f in M.functions.values():
+        ident = f["identifier"]
+        params = {p["keyword"]: p for p in (fmap.parameters_of(facts, f) or []) if p.get("keyword")}
+        for e in f["exprs"]:
+            name = M.method_body(e, "type_def")
+            adt = facts.adts.get(e)
+            rn = M.resolve_body(e)
+            if not name or not adt or not rn:
+                continue
+            rb = facts.body(rn)
+            v = adt["variants"][0]
+            base_fields, base_exprs = {}, {}
+            for fld, ty in zip(v["fields"], v["ftys"]):
+                if re.match(r"^std::boxed::Box<\(?dyn compiler::expression::Expression", ty):
+                    base_fields[fld] = tinfo.boxed(tinfo.Expr(fld))
+                elif ty.startswith("std::option::Option<std::boxed::Box<"):
+                    base_fields[fld] = tinfo.Enum("std::option::Option", "Some", {"0": tinfo.boxed(tinfo.Expr(fld))})
+                else:
+                    base_fields[fld] = tinfo.UNK
+                p = params.get(fld)
+                kinds = {n for b_, n in bitname.items() if p and p.get("kind") and p["kind"] & fmap.KIND_BITS[b_]}
+                base_exprs[fld] = kinds or set(tinfo.KINDS)
+            for fld, ty in zip(v["fields"], v["ftys"]):
+                if not re.match(r"^std::boxed::Box<\(?dyn compiler::expression::Expression", ty) or len(base_exprs[fld]) < 2:
+                    continue
+                starts = sr.argument_value_locals(facts, rb, fld)
+                if len(starts) != 1:
+                    continue
+                al = sr.value_aliases(rb, starts)
+                # where is the value matched: here, or in a stdlib helper it is handed to
+                table = None
+                where = None
+                if any(place["l"] in al for sbb, place, adt_, tg, other in cfgq_discr(facts, rb)):
+                    vl = [x for x in al if rb.local_ty(x).endswith("value::value::Value")]
+                    if vl:
+                        table, where = retkind.per_variant(facts, rn, sorted(vl)[0], R), rn
+                else:
+                    for bb, t in rb.calls():
+                        cal = rb.callee(t)
+                        pos = [i for i, a in enumerate(t["args"]) if op_local(a) in al]
+                        if pos and facts.has(cal) and (cal.startswith("stdlib::") or cal.startswith("<stdlib::")) and "::{closure" not in cal \
+                                and (t.get("dty") or "").startswith("std::result::Result<value::value::Value"):
+                            # the helper's own result must be what resolve returns
+                            if t["dest"]["l"] == 0 or True:
+                                table, where = retkind.per_variant(facts, cal, pos[0] + 1, R), cal
+                            break
+                if not table:
+                    continue
+                n_args += 1
+                bad = []
+                for kname in sorted(base_exprs[fld]):
+                    got = table.get(var_of[kname], set()) - {"?"}
+                    if not got:
+                        continue
+                    exprs = {k2: tinfo.TD(set(v2)) for k2, v2 in base_exprs.items()}
+                    exprs[fld] = tinfo.TD({kname})
+                    it = tinfo.Interp(facts, exprs)
+                    try:
+                        res = it.call_body(name, [tinfo.Ref(tinfo.Enum(e, None, dict(base_fields))), tinfo.Ref(tinfo.ST())])
+                    except tinfo.Undecided:
+                        continue
+                    if not isinstance(res, tinfo.TD):
+                        continue
+                    outside = sorted(x for x in got if x in KIND_OF_VARIANT and KIND_OF_VARIANT[x] not in res.kind)
+                    if outside:
+                        bad.append((kname, outside, sorted(res.kind)))
+                d = {"function": ident, "argument": fld, "matched_in": where, "per_variant_results": {k2: sorted(v2) for k2, v2 in table.items()},
+                     "mismatches": bad}
+                chk.instance(rid, d, ok=not bad)
+                for kname, outside, tk in bad:
+                    chk.violation(rid, f["file"], e, "`%s` with a %s `%s` returns %s" % (ident, kname, fld, "/".join(outside)),
+                                  "`%s`: when `%s` is %s resolve can produce %s, but type_def evaluated with `%s` typed %s yields %s: the returned value is "
+                                  "outside the declared result type for that argument type" % (ident, fld, kname, "/".join(x.lower() for x in outside), fld, kname,
+                                                                                               "|".join(tk) or "never"), detail=d)
+    chk.extra["R03g_arguments_compared_per_variant"] = n_args
+
+
+def cfgq_discr(facts, b):
+    import cfgq
+    return cfgq.discr_switches_on(facts, b, lambda p, a: a == "value::value::Value")
